@@ -40,12 +40,16 @@ def container_rule(ctx: core.Ctx, files=("py/formak/common.py", "py/formak/pytho
             if isinstance(fn, (ast.FunctionDef, ast.AsyncFunctionDef)):
                 for sub in ast.walk(fn):
                     func_of.setdefault(sub, fn.name)
-        for a in ast.walk(mod):
-            if not (isinstance(a, ast.Attribute) and a.attr in ROLE_ATTRS and isinstance(a.value, ast.Name) and a.value.id in MODEL_NAMES
-                    and isinstance(a.ctx, ast.Load)):
-                continue
-            if a.value.id == "self" and rel != "py/formak/ui_model.py":
-                continue
+        fdefs = {f.name: f for f in ast.walk(mod) if isinstance(f, ast.FunctionDef)}
+        fnode_of = {}
+        for fn in ast.walk(mod):
+            if isinstance(fn, (ast.FunctionDef, ast.AsyncFunctionDef)):
+                for sub in ast.walk(fn):
+                    fnode_of.setdefault(sub, fn)
+
+        def classify(a, what):
+            """a: a Load of the raw container (the attribute itself, or a name that is a plain copy of it)"""
+            nonlocal n
             p = par.get(a)
             ok, why = True, "container-agnostic use"
             if isinstance(p, ast.BinOp) and isinstance(p.op, (ast.Sub, ast.BitOr, ast.BitAnd, ast.BitXor)):
@@ -58,9 +62,43 @@ def container_rule(ctx: core.Ctx, files=("py/formak/common.py", "py/formak/pytho
                 ok, why = False, f"set/list-only method `.{p.attr}` on the raw container"
             n += 1
             ctx.oblige("CONTAINER", f"{rel}:{func_of.get(a, '<module>')}", f"`{ast.unparse(p) if p is not None else ast.unparse(a)}`"[:120], ok,
-                       file=rel, func=func_of.get(a, "<module>"), construct=f"raw {ast.unparse(a)} in {type(p).__name__}",
-                       msg=f"raw user container {ast.unparse(a)}: {why}; a valid definition that declares it in another container type is refused / mishandled",
+                       file=rel, func=func_of.get(a, "<module>"), construct=f"raw {what} in {type(p).__name__}",
+                       msg=f"raw user container {what}: {why}; a valid definition that declares it in another container type is refused / mishandled",
                        line=a.lineno)
+            # the raw container under another name: a plain copy into a local, or an argument of a function of this file
+            fn = fnode_of.get(a)
+            if isinstance(p, ast.Assign) and p.value is a and len(p.targets) == 1 and isinstance(p.targets[0], ast.Name) and fn is not None:
+                follow(fn, p.targets[0].id, what, p.lineno)
+            if isinstance(p, ast.keyword) and isinstance(par.get(p), ast.Call):
+                call = par[p]
+                cal = fdefs.get(call.func.id) if isinstance(call.func, ast.Name) else None
+                if cal is not None and p.arg in [x.arg for x in cal.args.args + cal.args.kwonlyargs]:
+                    follow(cal, p.arg, what, 0)
+            if isinstance(p, ast.Call) and a in p.args and isinstance(p.func, ast.Name) and p.func.id in fdefs:
+                cal = fdefs[p.func.id]
+                k = p.args.index(a)
+                if k < len(cal.args.args):
+                    follow(cal, cal.args.args[k].arg, what, 0)
+
+        followed = set()
+
+        def follow(fn, name, what, after_line):
+            if (id(fn), name) in followed or len(followed) > 40:
+                return
+            followed.add((id(fn), name))
+            stores = [x for x in ast.walk(fn) if isinstance(x, ast.Name) and x.id == name and isinstance(x.ctx, ast.Store)]
+            if len(stores) > 1:
+                return                              # re-bound: no longer (only) the raw container
+            for x in ast.walk(fn):
+                if isinstance(x, ast.Name) and x.id == name and isinstance(x.ctx, ast.Load) and x.lineno >= after_line:
+                    classify(x, f"{what} (as `{name}`)")
+        for a in ast.walk(mod):
+            if not (isinstance(a, ast.Attribute) and a.attr in ROLE_ATTRS and isinstance(a.value, ast.Name) and a.value.id in MODEL_NAMES
+                    and isinstance(a.ctx, ast.Load)):
+                continue
+            if a.value.id == "self" and rel != "py/formak/ui_model.py":
+                continue
+            classify(a, ast.unparse(a))
     ctx.floor("CONTAINER", n, 12, "raw uses of model.state/.control/.calibration classified")
 
 
